@@ -242,10 +242,17 @@ pub fn state_metadata(_cex: &Value) -> Result<String, String> {
           .unwrap()
       };
       let mut d = IotaDocument::new_with_id(did_self.clone());
-      let combos = [(true, true, "#ss"), (true, false, "#sf"), (false, true, "#fs"), (false, false, "#ff")];
+      let combos = [(true, true, "#ss"), (true, false, "#sf"), (false, true, "#fs"), (false, false, "#ff"), (true, true, "#ss-cd"), (true, false, "#sf-ci"), (false, true, "#fs-ka"), (true, true, "#ss-am"), (false, true, "#fs-cd")];
       for (i, (id_self, c_self, frag)) in combos.iter().enumerate() {
         let m = mk(if *id_self { &did_self } else { &did_foreign }, if *c_self { &did_self } else { &did_foreign }, frag);
-        let scope = if i % 2 == 0 { MethodScope::VerificationMethod } else { MethodScope::authentication() };
+        let scope = match i {
+          0 | 2 => MethodScope::VerificationMethod,
+          1 | 3 => MethodScope::authentication(),
+          4 | 8 => MethodScope::capability_delegation(),
+          5 => MethodScope::capability_invocation(),
+          6 => MethodScope::key_agreement(),
+          _ => MethodScope::assertion_method(),
+        };
         d.insert_method(m, scope).unwrap();
       }
       match d.clone().pack().and_then(|p| StateMetadataDocument::unpack(&p)).and_then(|x| x.into_iota_document(&target)) {
